@@ -12,7 +12,7 @@ META = dict(
            "within the decision budget derived from the request (a feasible path that exhausts it is solved, replayed under a "
            "watchdog and reported), the result is at most one unit longer than requested, every inflate call carries an output "
            "cap of at most one allocation unit. Reference walks: Parallels snapshot chain over <= 4 shots with symbolic parent "
-           "pointers; Hyper-V key-table entry walk over a symbolic table of <= 96 bytes; Hyper-V object tables with symbolic "
+           "pointers; Hyper-V key-table entry walk over a symbolic table of 64 bytes; Hyper-V object tables with symbolic "
            "entry types/offsets (<= 2 entries per table)",
     outside=["byte-level corruption of text/XML inputs and of the tar/envelope containers (C-level parsers)", "CPU/memory of "
              "zlib itself", "files shorter than the structures the reader touches are modelled only where the reader "
@@ -32,7 +32,7 @@ def tasks(tier):
            ("hds", dict(version=1, tracks=8, n_clusters=2, fault=True, max_decisions=300)),
            ("vhdx", dict(block_size=MB, sector_size=4096, max_count=2, has_parent=True, fault=True, max_decisions=300)),
            ("snapshot_chain", dict(n=3)), ("snapshot_chain", dict(n=4)),
-           ("keytable_walk", dict(size=96)),
+           ("keytable_walk", dict(size=64)),
            ("object_tables", dict(n=2))]
     return out
 
